@@ -2,6 +2,7 @@ package edt
 
 import (
 	"fmt"
+	"regexp"
 	"sort"
 	"strings"
 
@@ -63,6 +64,8 @@ func Ite(c, a, b Tri) Tri { return Or(And(c, a), And(Not(c), b)) }
 
 // Implies is material implication.
 func Implies(a, b Tri) Tri { return Or(Not(a), b) }
+
+var eqConstRE = regexp.MustCompile(`^\((.+) == (-?[0-9]+)\)$`)
 
 // Env is the partial valuation of specification variables on one path.
 type Env struct {
@@ -248,6 +251,30 @@ func Check(rule *report.Rule, cfg *Config, sp *Spec) *Result {
 			}
 			env.vals[v] = val
 			varset[v] = true
+		}
+		// equalities with distinct constants exclude each other: a path that established (X == c)
+		// has decided every specification atom (X == c') with c' != c, whether or not the code
+		// spelled that comparison out (switch vs. if-chain over the same value)
+		for _, l := range pa.Lits {
+			if !l.Val {
+				continue
+			}
+			m := eqConstRE.FindStringSubmatch(sp.abbrev(l.Atom))
+			if m == nil {
+				continue
+			}
+			for a, v := range sp.Vars {
+				m2 := eqConstRE.FindStringSubmatch(a)
+				if m2 == nil || m2[1] != m[1] || m2[2] == m[2] {
+					continue
+				}
+				neg := strings.HasPrefix(v, "!")
+				v = strings.TrimPrefix(v, "!")
+				if _, had := env.vals[v]; !had {
+					env.vals[v] = neg // the atom is false
+					varset[v] = true
+				}
+			}
 		}
 		if !feasible {
 			continue
